@@ -1707,6 +1707,26 @@ func ruleR159(c *Ctx) {
 			}
 			return true
 		})
+		// the address of the copy (or of a field of it) handed to anything but the encoder: the callee can rewrite it
+		inspectNoLit(f.Body, func(m ast.Node) bool {
+			cl, ok := m.(*ast.CallExpr)
+			if !ok || bad != nil {
+				return true
+			}
+			if fn := callee(in, cl); fn != nil && fn.Pkg() != nil && fn.Pkg().Path() == "encoding/xml" {
+				return true
+			}
+			for _, a := range cl.Args {
+				u, isAddr := unparen(a).(*ast.UnaryExpr)
+				if !isAddr || u.Op != token.AND {
+					continue
+				}
+				if r := rootIdent(u.X); r != nil && objOf(in, r) == enc {
+					bad, why = cl, "the address "+exprString(a)+" handed to "+exprString(cl.Fun)
+				}
+			}
+			return true
+		})
 		c.Check(bad == nil, f, f.Decl, f.QName()+" encodes its value unchanged", what, ifElse(bad == nil, "the encoded copy "+enc.Name()+" is not rewritten", why+" at "+c.pos(bad)+" rewrites the copy that is encoded"))
 	}
 	if n == 0 {
@@ -2937,7 +2957,21 @@ func ruleR176(c *Ctx) {
 		if site != nil {
 			wit = "registered at " + c.pos(site) + " (" + siteF.QName() + ")"
 		}
-		c.Check(site != nil, f, f.Decl, "event relay "+T.Obj().Name()+" is a consumer of its enclosing scope", what, wit)
+		// ... and whatever the scope contains: a scope that holds no catch event itself may hold a scope that does
+		cond := ""
+		if site != nil {
+			sin := info(siteF)
+			for _, pc := range polarConds(p, site) {
+				if isErrTest(sin, pc.cond) {
+					continue
+				}
+				cond = exprString(pc.cond)
+			}
+			if cond != "" {
+				wit = "registered at " + c.pos(site) + " only if " + cond + " (a scope nested inside registers with this one and is cut off with it)"
+			}
+		}
+		c.Check(site != nil && cond == "", f, f.Decl, "event relay "+T.Obj().Name()+" is a consumer of its enclosing scope", what, wit)
 	}
 	if n == 0 {
 		c.Missing("event relays", "no type with both ConsumeEvent and RegisterEventConsumer was found")
@@ -3766,4 +3800,24 @@ func ruleR186(c *Ctx) {
 	if n == 0 {
 		c.Missing("message matcher", "no MatchesEventInstance on a type with an optional operation reference was found")
 	}
+}
+
+// isErrTest: a condition that only tests error values against nil (err != nil, err == nil, a && of such).
+func isErrTest(in *types.Info, e ast.Expr) bool {
+	switch x := unparen(e).(type) {
+	case *ast.BinaryExpr:
+		if x.Op == token.LAND || x.Op == token.LOR {
+			return isErrTest(in, x.X) && isErrTest(in, x.Y)
+		}
+		if x.Op != token.EQL && x.Op != token.NEQ {
+			return false
+		}
+		isErr := func(a ast.Expr) bool {
+			t := in.TypeOf(a)
+			return t != nil && types.Identical(t, types.Universe.Lookup("error").Type())
+		}
+		isNil := func(a ast.Expr) bool { tv, ok := in.Types[a]; return ok && tv.IsNil() }
+		return (isErr(x.X) && isNil(x.Y)) || (isErr(x.Y) && isNil(x.X))
+	}
+	return false
 }
